@@ -1,7 +1,113 @@
-import Aqv.Base.Proto
-open Aqv Aqv.Proto
+/-
+  Model driver for C07. Case lines (see go/harness/cmd/c07/main.go):
 
-/-- stub driver for C07 (answers every case line with "bad-op"); replaced when the property is built. -/
-def handle (l : String) : String := let _ := l; "bad-op\tagree"
+    cfg <name> <height>                                  \t <sets> <homestead> <eip150> <eip158> <byzantium> <gas table>
+    run <cfg> <kind> <gas> <valueNZ> <t|n> <step>*       \t <class> <leftover> <ticks> <maxDepth> <maxMem> <checksum>
+
+  A step is `op:args:flags` (hex opcode, `.`-separated hex operands or `-`, oracle flags); step 0 describes the top-level
+  callee. The model replays the oracle with `Aqv.Vm.topCall`/`topCreate` over the generated tables and prints the same summary.
+-/
+import Aqv.Base.Proto
+import Aqv.Model.Vm
+open Aqv Aqv.Proto Aqv.Vm Aqv.Gen.VmFlags
+
+def hexDig7 (c : Char) : Option Nat :=
+  if '0' ≤ c ∧ c ≤ '9' then some (c.toNat - '0'.toNat)
+  else if 'a' ≤ c ∧ c ≤ 'f' then some (c.toNat - 'a'.toNat + 10)
+  else none
+
+def hexNat (s : String) : Nat := s.toList.foldl (fun acc c => match hexDig7 c with | some d => acc * 16 + d | none => acc) 0
+
+def decNat (cs : List Char) : Nat := cs.foldl (fun acc c => acc * 10 + (c.toNat - '0'.toNat)) 0
+
+/-- oracle flags: s<d> sstoreKind, E/e exist, M/m empty, B selfBalanceNZ, T/t canTransfer, P<dec>. precompile gas, Z code empty,
+    X collision, x execErr -/
+partial def parseFlags (cs : List Char) (i : StepIn Unit) : StepIn Unit :=
+  match cs with
+  | [] => i
+  | 's' :: d :: rest => parseFlags rest { i with sstoreKind := d.toNat - '0'.toNat }
+  | 'E' :: rest => parseFlags rest { i with exist := true }
+  | 'e' :: rest => parseFlags rest { i with exist := false }
+  | 'M' :: rest => parseFlags rest { i with empty := true }
+  | 'm' :: rest => parseFlags rest { i with empty := false }
+  | 'B' :: rest => parseFlags rest { i with selfBalanceNZ := true }
+  | 'T' :: rest => parseFlags rest { i with canTransfer := true }
+  | 't' :: rest => parseFlags rest { i with canTransfer := false }
+  | 'P' :: rest =>
+    let ds := rest.takeWhile (· != '.')
+    parseFlags ((rest.dropWhile (· != '.')).drop 1) { i with precompile := some (decNat ds) }
+  | 'Z' :: rest => parseFlags rest { i with codeEmpty := true }
+  | 'X' :: rest => parseFlags rest { i with collision := true }
+  | 'x' :: rest => parseFlags rest { i with execErr := true }
+  | _ :: rest => parseFlags rest i
+
+def parseStep (s : String) : StepIn Unit :=
+  match s.splitOn ":" with
+  | [op, args, flags] =>
+    let a := if args == "-" then [] else (args.splitOn ".").map hexNat
+    parseFlags flags.toList { op := if op == "-" then 0 else hexNat op, args := a }
+  | _ => { op := 0xfe, args := [] }
+
+def errName : Err → String
+  | .invalidOpcode => "invalidOpcode" | .stackUnderflow => "stackUnderflow" | .stackLimit => "stackLimit"
+  | .writeProtection => "writeProtection" | .gasUintOverflow => "gasUintOverflow" | .outOfGas => "outOfGas"
+  | .execError => "execError" | .depth => "depth" | .insufficientBalance => "insufficientBalance" | .collision => "collision"
+  | .codeStoreOutOfGas => "codeStoreOutOfGas" | .maxCodeSize => "maxCodeSize"
+
+def outName : Outcome → String
+  | .ok => "ok" | .revert => "revert" | .fail e => "fail-" ++ errName e | .outOfFuel => "MODEL-OUT-OF-FUEL" | .panic => "MODEL-PANIC"
+
+def csMod : Nat := 2147483647
+
+def checksum (tr : List Event) : Nat :=
+  tr.foldl (fun h e => (h * 1000003 + e.gasBefore % csMod + 3 * (e.cost % csMod) + 5 * e.memLen + 7 * e.depth + 11 * e.stack + 13 * e.op) % csMod) 0
+
+def epochName : Epoch → String
+  | .frontier => "frontier" | .homestead => "homestead" | .byzantium => "byzantium" | .constantinople => "constantinople" | .spring => "spring"
+
+def gtStr (g : GasTable) : String :=
+  ".".intercalate ([g.extcodeSize, g.extcodeCopy, g.balance, g.sLoad, g.calls, g.suicide, g.expByte, g.createBySuicide].map toString)
+
+def envOf (c : Cfg) : Option Env :=
+  match c.sets with
+  | [] => none
+  | e :: _ => some ⟨e, c.gasTable, c.homestead, c.eip150, c.eip158, c.byzantium⟩
+
+def findCfg (name : String) : Option Cfg := configs.find? (fun c => c.name == name)
+
+def summary (triv : Bool) (r : Res Unit) : String :=
+  let maxD := r.trace.foldl (fun m e => max m e.depth) 0
+  let maxM := r.trace.foldl (fun m e => max m e.memLen) 0
+  (if triv then "t-" else "") ++ outName r.out ++ s!" {r.gas} {r.tick} {maxD} {maxM} {checksum r.trace}"
+
+def handle (l : String) : String :=
+  let (inp, go) := splitCase l
+  match fields inp with
+  | ["cfg", name, height] =>
+    match findCfg name with
+    | none => "unknown-config\tspec-ok"
+    | some c =>
+      let m := ",".intercalate (c.sets.map epochName) ++ s!" {c.homestead} {c.eip150} {c.eip158} {c.byzantium} " ++ gtStr c.gasTable
+      if toString c.height != height then verdict "height-differs" go true ""
+      else verdict m go true ""
+  | "run" :: name :: kind :: gas :: vnz :: triv :: steps =>
+    match (findCfg name).bind envOf with
+    | none => "unknown-config\tspec-ok"
+    | some env =>
+      let arr := (steps.map parseStep).toArray
+      let o : Nat → StepIn Unit := fun t => arr.getD t { op := 0xfe, args := [] }
+      let g := gas.toNat!
+      let fuel := g + 2
+      let db : Db Unit := ⟨(), [], 0⟩
+      let r :=
+        if kind == "create" then topCreate env o fuel g db
+        else
+          let k : CallKind := if kind == "callcode" then .callcode else if kind == "static" then .static else .call
+          topCall env o fuel k g (vnz == "1") db
+      let m := summary (triv == "t") r
+      -- Spec judgement of what Go reported when it differs from Impl: the only clause visible in the summary is leftover ≤ given
+      let goLeft := match fields go with | _ :: lo :: _ => lo.toNat! | _ => 0
+      verdict m go (goLeft ≤ g) "leftover-gas-exceeds-given"
+  | _ => "bad-op\tagree"
 
 def main : IO Unit := runLines handle
